@@ -332,6 +332,20 @@ func (a *agg) do(act string) error {
 		a.o.finalsAtCrash[len(a.o.finals)] = true // a finalize whose persist step failed is repeated
 		a.o.mu.Unlock()
 		return a.do("R")
+	case act == "Q":
+		// the stop request wins the race against the inclusion check: the loops are stopped, the submissions that were
+		// under way are still acknowledged (marks set, nobody left to look at them), the caches are saved, the node restarts
+		if err := a.l.Stop(); err != nil {
+			return err
+		}
+		_ = a.n.M.VerifSubmitHeadersOnce(a.ctx)
+		_ = a.n.M.VerifSubmitDataOnce(a.ctx)
+		a.o.r.Hit("stop-between-acceptance-and-inclusion")
+		a.logs = append(a.logs, a.n.DS.Log())
+		if err := a.n.M.SaveCache(); err != nil {
+			return fmt.Errorf("SaveCache: %w", err)
+		}
+		return a.start()
 	case act == "R", act == "C":
 		if err := a.l.Stop(); err != nil {
 			return err
@@ -484,8 +498,10 @@ func genAgg(rng *rand.Rand, id int, repeat bool, allowCrash bool) Case {
 			c.Actions = append(c.Actions, "D"+[]string{"", "", "", "p", "x", "l", "t"}[rng.Intn(7)])
 		case p < 92:
 			c.Actions = append(c.Actions, "I")
-		case p < 97:
+		case p < 95:
 			c.Actions = append(c.Actions, "R")
+		case p < 97:
+			c.Actions = append(c.Actions, "Q")
 		default:
 			if allowCrash && rng.Intn(3) > 0 {
 				c.Actions = append(c.Actions, fmt.Sprintf("X%d", rng.Intn(9)))
@@ -709,6 +725,16 @@ func Run(r *vk.Run) {
 					id++
 				}
 			}
+		}
+	}
+	// crafted: blocks are accepted while the stop is already under way, the node restarts with their marks in its
+	// caches and nothing more to submit
+	for _, shape := range [][]string{{"P"}, {"P", "P", "Pe"}, {"Pe", "Pe"}, {"P", "H", "D", "I", "P", "Pe"}} {
+		for _, initial := range []uint64{1, 3} {
+			c := Case{ID: id, Node: "aggregator", Initial: initial}
+			c.Actions = append(append([]string{}, shape...), "Q")
+			jobs = append(jobs, job{c: c})
+			id++
 		}
 	}
 	for i := 0; i < r.N(30, 300); i++ {
